@@ -2063,6 +2063,21 @@ impl Fs {
                             .copy_from_slice(&data[src_offset..src_offset + len]);
                     }
                 }
+            } else if let PendingOp::SetLen {
+                path: p,
+                len: new_len,
+                ..
+            } = op
+            {
+                // A truncation discards everything beyond the new length: if the file is
+                // extended again later, those bytes read as zeros, not as the old data.
+                if p == &content_path || self.path_renamed_to(p, &content_path) {
+                    let read_end = offset + to_read as u64;
+                    if *new_len < read_end {
+                        let start = (new_len.max(&offset) - offset) as usize;
+                        buf[start..to_read].fill(0);
+                    }
+                }
             }
         }
 
